@@ -275,6 +275,62 @@ def run(rep):
         witness.run_witnesses(rep, 'C01', ['W1StringConstructorIsPrivate', 'W3RootAsMutIsUnsafe', 'W4GcDanglingIsPrivate', 'W5HeapIsPrivate', 'W6GcIsReadOnly'])
 
 
+
+_HEAPV = {}
+
+
+def heap_variants(w):
+    """names of the Value variants whose payload holds a managed pointer"""
+    if id(w) not in _HEAPV:
+        c = w.yarel
+        out = set()
+        for v in c.adts['yarel::value::Value']['variants']:
+            if any('Gc<' in c.tstr(fd['t']) or 'Root<' in c.tstr(fd['t']) for fd in v['fields']):
+                out.add(v['n'])
+        _HEAPV[id(w)] = out
+    return _HEAPV[id(w)]
+
+
+def value_predicate(w, pf):
+    """variant name -> bool for a function `fn(&Value) -> bool` that is one match on the variant with constant arms; None otherwise"""
+    c = w.yarel
+    if pf.argc != 1 or 'value::Value' not in c.tstr(pf.local_ty(1)) or c.tstr(pf.local_ty(0)) != 'bool':
+        return None
+    b0 = pf.blocks[0]
+    t = b0['t']
+    if t['t'] != 'switch' or not any(s_.get('r', {}).get('rv') == 'discr' and s_['r']['p']['l'] == 1 for s_ in b0['s']):
+        return None
+
+    def result(b):
+        for _ in range(6):
+            blk = pf.blocks[b]
+            val = None
+            for s_ in blk['s']:
+                d = s_.get('d') or {}
+                if d.get('l') == 0 and not d.get('p'):
+                    k = op_const(s_['r'].get('o', {}) or {}) if s_['r'].get('rv') == 'use' else None
+                    if k is None or 'v' not in k:
+                        return None
+                    val = bool(k['v'])
+                elif d:
+                    return None
+            tt = blk['t']
+            if val is not None and tt['t'] in ('goto', 'return'):
+                return val
+            if tt['t'] == 'goto' and not blk['s']:
+                b = tt['to']
+                continue
+            return None
+        return None
+    out = {}
+    cases = dict((v, cb) for v, cb in t['cases'])
+    for v in c.adts['yarel::value::Value']['variants']:
+        res = result(cases.get(v['discr'], t['else']))
+        if res is None:
+            return None
+        out[v['n']] = res
+    return out
+
 def r1(rep, w):
     c = w.yarel
     ok_table = {e['key']: e for e in table('c01_untraced_ok.json')}
@@ -334,6 +390,33 @@ def r1(rep, w):
                 key = '%s / %s is unconditional' % (x['adt'], which)
                 r.check(not plain, key, '%s::%s traces under a condition on `%s`, which is not part of what is being traced: the edge is followed only while every writer '
                         'keeps that state exact' % (x['adt'].rsplit('::', 1)[-1], which, ', '.join(plain)), f.loc(t.get('sp')))
+                # ... or on the answer of one of the interpreter's own predicates. A predicate over a Value ("is this a heap reference?") is
+                # evaluated for every variant: all variants that carry a managed pointer must go the way the trace call lies on. Any other
+                # workspace predicate over the object is a condition on its state, as above.
+                for q in qs:
+                    if q[0][0] != 'call' or q[0][2] not in w.fns or w.fns[q[0][2]].crate is not w.yarel:
+                        continue
+                    pf = w.fns[q[0][2]]
+                    if pf.path.startswith(GCM) or '::GcManaged>::' in pf.path:
+                        continue
+                    verdict = value_predicate(w, pf)
+                    pkey = '%s / %s: filter %s' % (x['adt'], which, pf.path.rsplit('::', 1)[-1])
+                    if verdict is None:
+                        r.bad(pkey, '%s::%s decides whether to trace by calling %s, which is not a variant test the analysis can evaluate: the edge is followed only while '
+                              'that predicate is exact' % (x['adt'].rsplit('::', 1)[-1], which, pf.path), f.loc(t.get('sp')))
+                        continue
+                    heap_vals = {verdict[v] for v in verdict if v in heap_variants(w)}
+                    if len(heap_vals) != 1:
+                        dropped = sorted(v for v in verdict if v in heap_variants(w) and verdict[v] != max(heap_vals, key=lambda z: sum(1 for v2 in verdict if v2 in heap_variants(w) and verdict[v2] == z)))
+                        r.bad(pkey, '%s::%s filters what it traces with %s, which answers differently for heap kinds (%s go the other way): values of those kinds are not '
+                              'traced and are reclaimed while reachable' % (x['adt'].rsplit('::', 1)[-1], which, pf.path, ', '.join(dropped)), f.loc(t.get('sp')))
+                        continue
+                    hv = heap_vals.pop()
+                    tgt = t['else'] if hv else next((cb for v_, cb in t['cases'] if v_ == 0), None)
+                    dom_ = f.dominators()
+                    traced = any((callee_name(t2) or '').endswith('::' + which) or (which == 'blacken' and (callee_name(t2) or '').endswith('::mark'))
+                                 for b2, t2 in f.calls() if tgt is not None and tgt in dom_.get(b2, ()))
+                    r.check(traced, pkey, '%s::%s calls %s and then traces on the edge the heap kinds do not take' % (x['adt'].rsplit('::', 1)[-1], which, pf.path), f.loc(t.get('sp')))
     # container impls and handles
     rc = rep.rule('R1k', 'container / handle impls trace their element parameter', floor=7)
     for im in impls:
